@@ -284,6 +284,77 @@ func TestVerif_C04(t *testing.T) {
 		}
 		r.Sample(map[string]any{"config": c.name, "depth": depth, "example_sequence": "mkds(/x); mkds(/y); attr(/x,a); hardlink(/lx->/x); write(/y)"})
 	}
+	// header-fill family: X's single-chunk object header brought to every reachable total in
+	// [200,255] message bytes, Y/G/Z allocated right behind it, then every operation that can
+	// make X's header grow in place (tiny attribute, reference count of a hard link) or that
+	// writes the neighbours; the neighbours must stay unchanged.
+	{
+		mkX := vfOp{Op: "mkds", Path: "/x", Type: "f64", Dims: []uint64{4}}
+		fills := vfHeaderFillStates(dir, mkX, 200, 255)
+		var totals []int
+		for t := range fills {
+			totals = append(totals, t)
+		}
+		sort.Ints(totals)
+		r.Set("header_fill_totals_reached", totals)
+		neighbours := [][]vfOp{
+			{{Op: "mkds", Path: "/y", Type: "f64", Dims: []uint64{4}}, {Op: "write", Path: "/y", Pat: 2}},
+			{{Op: "mkgroup", Path: "/y"}, {Op: "attr", Path: "/y", Name: "ga", Value: "i32a"}},
+			{{Op: "mkds", Path: "/y", Type: "i32", Dims: []uint64{4}, Chunk: []uint64{2}}, {Op: "write", Path: "/y", Pat: 2}},
+		}
+		grow := []vfOp{{Op: "attr", Path: "/x", Name: "t", Value: "u8"}, {Op: "hardlink", Path: "/lx", Target: "/x"}, {Op: "attr", Path: "/x", Name: "h", Value: "str:3"}, {Op: "write", Path: "/x", Pat: 1}}
+		type fj struct {
+			t    int
+			hist []vfOp
+		}
+		var jobs []fj
+		for _, t := range totals {
+			for _, nb := range neighbours {
+				for _, g := range grow {
+					// neighbour first then growth, and growth first then neighbour write
+					h1 := append(append(append([]vfOp{}, fills[t]...), nb...), g)
+					jobs = append(jobs, fj{t, h1})
+					h2 := append(append(append([]vfOp{}, fills[t]...), nb[0], g), nb[1:]...)
+					jobs = append(jobs, fj{t, h2})
+				}
+			}
+		}
+		vkit.ParallelFor(len(jobs), func(i int) {
+			j := jobs[i]
+			// compare the neighbour /y (and /x where the last op is aimed at /y) before/after the last op
+			parent := vfRun(dir, nil, j.hist[:len(j.hist)-1], false)
+			cur := vfRun(dir, nil, j.hist, true)
+			r.Transitions(2)
+			r.Case(fmt.Sprintf("header-fill-%d: %s", j.t, vfOpsString(j.hist)))
+			op := j.hist[len(j.hist)-1]
+			detail := map[string]any{"family": "header-fill", "header_message_bytes_before_growth": j.t, "ops": j.hist, "history": vfOpsString(j.hist)}
+			if parent.Tree == nil {
+				return
+			}
+			if cur.Tree == nil {
+				detail["open_error"] = fmt.Sprint(cur.OpenErr)
+				r.Fail(fmt.Sprintf("header-fill/%s/file-unopenable", op.Op), detail)
+				return
+			}
+			touched := vfTouched(op, parent.Tree)
+			for p, ob := range parent.Tree.Objs {
+				if touched[p] {
+					continue
+				}
+				nb := cur.Tree.Objs[p]
+				if nb == nil || nb.Content() != ob.Content() {
+					detail["victim"] = p
+					detail["before"], detail["after"] = parent.Tree.String(), cur.Tree.String()
+					r.Fail(fmt.Sprintf("header-fill/%s/other-object-changed(%s)", op.Op, ob.Kind), detail)
+					return
+				}
+			}
+			if cur.Closed == nil || cur.Closed.String() != cur.Tree.String() {
+				r.Fail("header-fill/close-changes-content", detail)
+			}
+			r.Outcome("ok")
+		})
+	}
 	r.States(int64(len(states)))
 	r.Assume("the dump compares only what the read API reports (Info, Read, ReadStrings, ReadCompound, Attributes, Children)")
 }
